@@ -1032,7 +1032,11 @@ func (index *ValidatorIndex) DecodeRLP(s *rlp.Stream) error {
 	if err := s.Decode(&list); err != nil {
 		return err
 	}
-	for _, addr := range list {
+	for i, addr := range list {
+		// the encoder writes a strictly ascending list: duplicates or another order are a second encoding of the same set
+		if i > 0 && bytes.Compare(list[i-1].Bytes(), addr.Bytes()) >= 0 {
+			return fmt.Errorf("validator index is not strictly ascending")
+		}
 		index.data.Store(addr, nil)
 	}
 	return nil
